@@ -44,6 +44,8 @@ fn main() {
     if args[1] == "reload-exec" {
         std::panic::set_hook(Box::new(|_| {}));
         art::reload_exec(std::path::Path::new(&args[2]), args[3] == "1");
+        return;
+    }
     if args[1] == "pmfchild" {
         // child mode of the pmf channel: one primitive at one call site, one output line
         std::panic::set_hook(Box::new(|_| {}));
